@@ -212,9 +212,11 @@ def step_monitor(av, case, res):
         free = [a for a in obj.arguments if isinstance(a, ev._LoopIndex)]
         if any(not isinstance(i.length, ev.Constant) for i in free) or len(free) > 2:
             continue
+        if free and any(loop.index in free for x in (obj, ret) for loop in getattr(x, '_loops', ())):
+            continue   # an inner loop re-binds the same index: substituting a constant would also hit the inner body
         envs = [{}]
         for i in free:
-            envs = [dict(e, **{id(i): (i, k)}) for e in envs for k in range(int(i.length.value))]
+            envs = [{**e, id(i): (i, k)} for e in envs for k in range(int(i.length.value))]
         for env in envs[:6]:
             def bind(x):
                 if env:
